@@ -72,6 +72,9 @@ func (w *respWriter) Write(b []byte) (int, error) {
 	if w.delay > 0 {
 		time.Sleep(w.delay + simrt.Skew())
 	}
+	// a socket write is a system call: other goroutines run while the bytes of b are being copied out, and b must
+	// still hold them afterwards
+	simrt.Yield("client:write")
 	w.chunks++
 	return w.rec.Body.Write(b)
 }
